@@ -211,6 +211,10 @@ def _cmp_step(n, k, c, a, px, e, is_sup, a_done, errs, sup_last):
             if w["data_h"][k][x] != aw["data_h"][k][x]:
                 err("window.payload:vs-threaded", o, w["data_h"][k], aw["data_h"][k])
                 break
+            if "data_tag" in w and "data_tag" in aw and list(w["data_tag"][k][x]) != list(aw["data_tag"][k][x]):
+                # every leaf of the payload (also multi-element ones) is the same message in both runtimes
+                err("window.payload-leaf:vs-threaded", o, w["data_tag"][k][x], aw["data_tag"][k][x])
+                break
             if as_ >= 0 and (f32_bits(w["ts_sent"][k][x]) != f32_bits(aw["ts_sent"][k][x]) or f32_bits(w["ts_recv"][k][x]) != f32_bits(aw["ts_recv"][k][x])):
                 err("window.ts:vs-threaded", o, w["ts_recv"][k], aw["ts_recv"][k])
                 break
